@@ -141,6 +141,15 @@ def valid_templates(tier="quick"):
         files = {"dd": ddt} if mode == "existing" else {"dd.in": ddt}
         T.append(_mk("dyndep_file_named_twice/" + mode, [Variant("v0", st)], files, ops, [nb], depth, [mode, "named-twice"]))
 
+    # D4c: the dyndep file is up to date, its producer waits (order-only) for a dirty statement, and the information it
+    # supplies names that very statement's output as an input of the bound one: it is loaded from inside the bookkeeping
+    # of the statement that just finished
+    ddc = dyndep_text([("out", [], ["o"], False)])
+    st = [Stmt("o", ex=["s"]), Stmt("dd", ex=["dd.in"], oo=["o"], copy=True),
+          Stmt("out", ex=["in"], oo=["dd"], dyndep="dd", extra_reads=["o"]), Stmt("top", ex=["out"])]
+    ops, nb = common_ops([{"op": "rm", "path": "o", "label": "rm o"}])
+    T.append(_mk("loaded_when_its_new_input_finishes", [Variant("v0", st)], {"dd.in": ddc}, ops, [nb], depth, ["produced", "reentrant"]))
+
     # D5: two-level: the producer of the dyndep file has dyndep information itself
     dd5a = dyndep_text([("dd2", [], ["x"], False)])
     dd5b = dyndep_text([("out", [], ["dd2x"], False)])
